@@ -102,38 +102,9 @@ func es5StringValue(s string) (string, bool) {
 }
 
 func ruleSpecStringEscape(c *Ctx, r *R) {
-	// the function: in package parser, func(string) (string, error), reached from the STRING arm of the primary
-	// expression parser; resolved by signature and by what it does (it tests for a backslash)
-	var fn *ssa.Function
-	for _, f := range c.AllSrcFuncs("parser") {
-		if f.Parent() != nil || f.Signature.Recv() != nil || len(f.Params) != 1 || f.Signature.Results().Len() != 2 {
-			continue
-		}
-		if typeStr(f.Params[0].Type()) != "string" || typeStr(f.Signature.Results().At(0).Type()) != "string" || typeStr(f.Signature.Results().At(1).Type()) != "error" {
-			continue
-		}
-		usesBackslash := false
-		for _, b := range f.Blocks {
-			for _, ins := range b.Instrs {
-				for _, op := range ins.Operands(nil) {
-					if k, ok := (*op).(*ssa.Const); ok && k.Value != nil {
-						if n, isInt := constInt(k); isInt && n == '\\' {
-							usesBackslash = true
-						}
-					}
-				}
-			}
-		}
-		if usesBackslash {
-			if fn != nil {
-				r.undecided("anchor", "-", "UNRESOLVED: two functions of package parser map a string to (string, error) and test for a backslash: "+fn.Name()+", "+f.Name())
-				return
-			}
-			fn = f
-		}
-	}
+	fn, why := stringLiteralValueFunc(c)
 	if fn == nil {
-		r.undecided("anchor", "-", "UNRESOLVED: the function that computes the value of a string literal (func(string) (string, error) in package parser)")
+		r.undecided("anchor", "-", why)
 		return
 	}
 	newBuf := func(in *absInterp, call *ssa.CallCommon, args []aval) (aval, bool) {
@@ -174,7 +145,10 @@ func ruleSpecStringEscape(c *Ctx, r *R) {
 			if !ok {
 				return nil, false
 			}
-			return in.load(ref), true
+			if cur, isStr := in.load(ref).(aStr); isStr {
+				return cur, true
+			}
+			return aStr(""), true // a zero Builder / Buffer nothing was written to
 		},
 		"bytes.(*Buffer).Grow": func(in *absInterp, call *ssa.CallCommon, args []aval) (aval, bool) { return aNil{}, true },
 		"unicode/utf8.DecodeRuneInString": func(in *absInterp, call *ssa.CallCommon, args []aval) (aval, bool) {
@@ -205,8 +179,8 @@ func ruleSpecStringEscape(c *Ctx, r *R) {
 			gen(prefix+a, alphabet, depth-1)
 		}
 	}
-	gen(`\x`, []string{"0", "9", "a", "F", "g"}, 3)
-	gen(`\u`, []string{"0", "F", "g"}, 5)
+	gen(`\x`, []string{"0", "9", "a", "F", "g", "_", "+"}, 3)
+	gen(`\u`, []string{"0", "F", "g", "_"}, 5)
 	for _, d := range []string{"0", "1", "3", "4", "7"} {
 		gen(`\`+d, []string{"0", "3", "4", "7", "a"}, 3)
 	}
@@ -243,7 +217,11 @@ func ruleSpecStringEscape(c *Ctx, r *R) {
 					}
 					return fmt.Sprintf("%+q", s)
 				}
-				bad = fmt.Sprintf("the literal body %+q gives %s; ES5 7.8.4 / B.1.2 give %s", lit, show(got, gotOK), show(want, wantOK))
+				how := show(got, gotOK)
+				if pan != nil {
+					how = "a Go panic (" + describeAval(pan) + ")"
+				}
+				bad = fmt.Sprintf("the literal body %+q gives %s; ES5 7.8.4 / B.1.2 give %s", lit, how, show(want, wantOK))
 			}
 		}
 	}
@@ -257,4 +235,46 @@ func ruleSpecStringEscape(c *Ctx, r *R) {
 		r.ok("value", site, fmt.Sprintf("%d literals agree with ES5 7.8.4 / B.1.2", n))
 	}
 	r.note("literals", n)
+}
+
+// stringLiteralValueFunc: the function of package parser that computes the value of a string literal: func(string)
+// (string, error) that tests for a backslash. (nil, reason) when there is none or more than one.
+func stringLiteralValueFunc(c *Ctx) (*ssa.Function, string) {
+	var fn *ssa.Function
+	for _, f := range c.AllSrcFuncs("parser") {
+		if f.Parent() != nil || f.Signature.Recv() != nil || len(f.Params) != 1 || f.Signature.Results().Len() != 2 {
+			continue
+		}
+		if typeStr(f.Params[0].Type()) != "string" || typeStr(f.Signature.Results().At(0).Type()) != "string" || typeStr(f.Signature.Results().At(1).Type()) != "error" {
+			continue
+		}
+		usesBackslash := false
+		for _, b := range f.Blocks {
+			for _, ins := range b.Instrs {
+				for _, op := range ins.Operands(nil) {
+					if k, ok := (*op).(*ssa.Const); ok && k.Value != nil {
+						if n, isInt := constInt(k); isInt && n == '\\' {
+							usesBackslash = true
+						}
+					}
+				}
+			}
+		}
+		if usesBackslash {
+			if fn != nil {
+				return nil, "UNRESOLVED: two functions of package parser map a string to (string, error) and test for a backslash: " + fn.Name() + ", " + f.Name()
+			}
+			fn = f
+		}
+	}
+	if fn == nil {
+		return nil, "UNRESOLVED: the function that computes the value of a string literal (func(string) (string, error) in package parser)"
+	}
+	return fn, ""
+}
+
+// inStringLiteralValue: fn is that function or a helper split out of it.
+func inStringLiteralValue(c *Ctx, fn *ssa.Function) bool {
+	root, _ := stringLiteralValueFunc(c)
+	return root != nil && c.partOf(fn, ssaFuncName(root), 0)
 }
